@@ -2,6 +2,9 @@ import BSEModel.Printing
 import BSEGen.Writers
 import BSEProofs.Lemmas.NwchemRT
 import BSEProofs.Lemmas.NwchemEcp
+import BSEModel.G94
+import BSEModel.G94Ecp
+import BSEModel.Turbomole
 /-! # C04 — every writer emits every number of the basis, unrounded -/
 namespace BSE.Props.C04
 open BSE BSE.Printing BSE.Gen.Writers
@@ -209,5 +212,77 @@ theorem nwchem_writer_covers_ecp {ν : Type} (T : EcpTables ν) (els : List (Nat
     refine List.mem_flatMap.2 ⟨p, (mem_writeOrder e.2.2 p).2 hp, ?_⟩
     unfold potLines
     exact List.mem_cons_of_mem _ (List.mem_map.2 ⟨t, ht, rfl⟩)
+
+open BSE.G94 BSE.Nwchem in
+/-- **Gaussian94 electron block covers the element**: the element's symbol line comes first, the block ends with `****`, and for
+every shell and every primitive `i` there is a row holding exactly exponent `i` followed by coefficient `i` of every contraction -/
+theorem g94_writer_covers_shells {ν : Type} (T : GTables ν) (z : Nat) (shells : List (EShell ν))
+    (sh : EShell ν) (hsh : sh ∈ shells) (hr : Rect sh.exps.length sh.coefs) (i : Nat) (hi : i < sh.exps.length) :
+    GLine.row (sh.exps[i] :: sh.coefs.filterMap (·[i]?)) ∈ electronBlock T z shells
+    ∧ GLine.head [T.amStr sh.am, T.natStr sh.exps.length, "1.00".toList] ∈ electronBlock T z shells := by
+  have hrect : Rect sh.exps.length (sh.exps :: sh.coefs) := by
+    intro c hc
+    rcases List.mem_cons.1 hc with rfl | h
+    · rfl
+    · exact hr c h
+  have hrow : (sh.exps[i] :: sh.coefs.filterMap (·[i]?)) ∈ zipStar (sh.exps :: sh.coefs) := by
+    rw [zipStar_closed (m := sh.exps :: sh.coefs) (by simp) hrect]
+    exact List.mem_map.2 ⟨i, List.mem_range.2 hi, by simp [List.filterMap_cons, List.getElem?_eq_getElem hi]⟩
+  unfold electronBlock
+  refine ⟨?_, ?_⟩
+  · apply List.mem_cons_of_mem
+    apply List.mem_append_left
+    exact List.mem_flatMap.2 ⟨sh, hsh, by
+      unfold G94.shellLines
+      exact List.mem_cons_of_mem _ (List.mem_map.2 ⟨_, hrow, rfl⟩)⟩
+  · apply List.mem_cons_of_mem
+    apply List.mem_append_left
+    exact List.mem_flatMap.2 ⟨sh, hsh, by unfold G94.shellLines; exact List.mem_cons_self⟩
+
+open BSE.G94 BSE.Nwchem in
+/-- **Gaussian94 ECP block covers the ECP**: the electron count stands on the element's `SYM-ECP` line and every term
+`(r exponent, gaussian exponent, coefficient)` of every potential is a row of the block -/
+theorem g94_writer_covers_ecp {ν : Type} (T : ETables ν) (z : Nat) (nelec : ν) (pots : List (EPot ν)) :
+    ELine.other [T.tagTok z, T.natTok ((pots.map (·.am)).foldl max 0), nelec] ∈ G94.ecpBlock T z nelec pots
+    ∧ ∀ p ∈ pots, ∀ t ∈ p.terms, ELine.other [t.1, t.2.1, t.2.2] ∈ G94.ecpBlock T z nelec pots := by
+  unfold G94.ecpBlock
+  refine ⟨by simp, ?_⟩
+  intro p hp t ht
+  apply List.mem_cons_of_mem
+  apply List.mem_cons_of_mem
+  refine List.mem_flatMap.2 ⟨p, (mem_writeOrder pots p).2 hp, ?_⟩
+  unfold potLinesE
+  exact List.mem_cons_of_mem _ (List.mem_cons_of_mem _ (List.mem_map.2 ⟨t, ht, rfl⟩))
+
+open BSE.Turbomole BSE.Nwchem in
+/-- **Turbomole electron section covers the basis**: every element is named, and for every shell and primitive `i` there is a
+row holding exactly exponent `i` followed by coefficient `i` of every contraction -/
+theorem turbomole_writer_covers_shells {ν : Type} (T : TTables ν) (name : Nwchem.Str) (els : List (Nat × List (EShell ν)))
+    (e : Nat × List (EShell ν)) (he : e ∈ els) :
+    TLine.elem (T.symOf e.1) name ∈ electronLinesT T name els
+    ∧ ∀ sh ∈ e.2, Rect sh.exps.length sh.coefs → ∀ i (hi : i < sh.exps.length),
+        TLine.row (sh.exps[i] :: sh.coefs.filterMap (·[i]?)) ∈ electronLinesT T name els := by
+  unfold electronLinesT
+  refine ⟨?_, ?_⟩
+  · apply List.mem_cons_of_mem
+    exact List.mem_flatMap.2 ⟨e, he, by unfold elementLinesT; exact List.mem_cons_self⟩
+  · intro sh hsh hr i hi
+    have hrect : Rect sh.exps.length (sh.exps :: sh.coefs) := by
+      intro c hc
+      rcases List.mem_cons.1 hc with rfl | h
+      · rfl
+      · exact hr c h
+    have hrow : (sh.exps[i] :: sh.coefs.filterMap (·[i]?)) ∈ zipStar (sh.exps :: sh.coefs) := by
+      rw [zipStar_closed (m := sh.exps :: sh.coefs) (by simp) hrect]
+      exact List.mem_map.2 ⟨i, List.mem_range.2 hi, by simp [List.getElem?_eq_getElem hi]⟩
+    apply List.mem_cons_of_mem
+    refine List.mem_flatMap.2 ⟨e, he, ?_⟩
+    unfold elementLinesT
+    apply List.mem_cons_of_mem
+    apply List.mem_cons_of_mem
+    apply List.mem_append_left
+    exact List.mem_flatMap.2 ⟨sh, hsh, by
+      unfold shellLinesT
+      exact List.mem_cons_of_mem _ (List.mem_map.2 ⟨_, hrow, rfl⟩)⟩
 
 end BSE.Props.C04
